@@ -78,7 +78,10 @@ expressions
     class `C` imported in the function, through `PureSpec.isinstance`; narrowing of a union-typed PARAMETER: in the `else` branch of
     `if isinstance(p, C):` the reads of `p` are rendered through `PureSpec.narrow[(p, C)]` ("p, which is not a C": template + type;
     parameters are never assigned; a comprehension / lambda re-binding `p` in that branch is `Unsupported`); `xs or ys` on two lists of
-    one element type, `ys` not raising (→ `if xs.isEmpty then ys else xs`)
+    one element type, `ys` not raising (→ `if xs.isEmpty then ys else xs`);
+    `str` literals of `[A-Za-z0-9_ .:-]*` as opaque `String`s (`PYSTR`); a spec'd METHOD call whose trailing arguments are passed by
+    keyword, in parameter order (`PureSpec.call_keywords`: all parameter names of the method); the builtin `int` as a spec'd call
+    (`calls[(None, "int")]`, refused when the module re-binds the name)
   * several `def`s of one name in a class / module (typing.overload stubs): the LAST one is translated (Python's binding)
   * function headers: decorators `property`, `override`, `staticmethod` only; parameter defaults must be constants (they concern the
     callers; the rendering takes every parameter explicitly); annotations are never consulted
